@@ -8,6 +8,7 @@
 import Frrs.Proofs.Stanza
 import Frrs.Oracle
 import Frrs.Props.C15
+import Frrs.Proofs.CliValues
 namespace Frrs.C06
 open Frrs
 set_option linter.unusedSimpArgs false
@@ -103,5 +104,53 @@ theorem strip_decision (o : FOpts) (s : FState) (n : Nat) :
       (∃ mx, o.maxBlob = some mx ∧ mx < n) ∨ (∃ sha, s.lastBlobSha = some sha ∧ stripContains o.stripIds sha = true) := by
   unfold blobStripped
   cases hm : o.maxBlob <;> cases hs : s.lastBlobSha <;> simp
+
+/-- **a blob named by its object id is stripped by size whatever the id's length**: under `--no-data` the `M` line carries an
+    object id; if it is a SHA-1 (40 digits) or a SHA-256 (64 digits) id of a blob above the limit, the line is replaced by a
+    deletion. (Before the repair recorded as N19 only 40-digit ids were looked up, so nothing was stripped by size in a
+    SHA-256 repository.) -/
+theorem oversize_by_id_dropped (o : FOpts) (s : FState) (f : MFields) (hid : isObjectId f.id = true)
+    (hm : o.maxBlob.isSome = true) (ho : o.shaOversize f.id = true) : mShouldDrop o s f = true := by
+  unfold mShouldDrop
+  cases hf : f.id with
+  | nil => simp [isObjectId, hf] at hid
+  | cons c digits =>
+    have hc : (c == B.colon) = false := by
+      have hall : (c :: digits).all isHexDigit = true := by
+        rw [hf] at hid; simp only [isObjectId, Bool.and_eq_true] at hid; exact hid.2
+      have hx : isHexDigit c = true := by simp only [List.all_cons, Bool.and_eq_true] at hall; exact hall.1
+      cases hcc : (c == B.colon) with
+      | false => rfl
+      | true =>
+        have : c = B.colon := by simpa using hcc
+        subst this
+        exact absurd hx (by decide)
+    rw [hf] at hid ho
+    simp [hc, hid, hm, ho]
+
+example : isObjectId (List.replicate 64 0x61) = true ∧ isObjectId (List.replicate 40 0x61) = true ∧
+    isObjectId (List.replicate 41 0x61) = false := by decide +kernel
+
+/-! ### the limit as typed on the command line (opts.rs `parse_max_blob_size`) -/
+
+/-- **the limit is the number typed**: `--max-blob-size N` is a limit of N bytes, for every N a u64 holds -/
+theorem limit_plain (n : Nat) (hn : n ≤ u64Max) : parseMaxBlobSize (natToDec n) = some n := parseMaxBlobSize_plain n hn
+
+/-- **K, M and G are powers of 1024**, upper or lower case, for every number whose product fits -/
+theorem limit_suffix (n : Nat) (sfx : UInt8) (mult : Nat)
+    (hs : (sfx, mult) ∈ [((0x4b : UInt8), 1024), (0x6b, 1024), (0x4d, 1024 * 1024), (0x6d, 1024 * 1024),
+                          (0x47, 1024 * 1024 * 1024), (0x67, 1024 * 1024 * 1024)])
+    (hn : n * mult ≤ u64Max) : parseMaxBlobSize (natToDec n ++ [sfx]) = some (n * mult) := parseMaxBlobSize_suffix n sfx mult hs hn
+
+/-- any other trailing letter is refused rather than ignored -/
+theorem limit_other_letter_refused (s : Bytes) (c : UInt8) (ha : isAlpha c = true)
+    (hk : upperA c ≠ 0x4b) (hm : upperA c ≠ 0x4d) (hg : upperA c ≠ 0x47) : parseMaxBlobSize (s ++ [c]) = none :=
+  parseMaxBlobSize_other_letter s c ha hk hm hg
+
+-- tests (concrete values, not the claim): underscores, overflow, the empty value
+example : parseMaxBlobSize b!"1_000" = some 1000 := by decide +kernel
+example : parseMaxBlobSize b!"10m" = some 10485760 := by decide +kernel
+example : parseMaxBlobSize b!"17179869184G" = none := by decide +kernel     -- 2^34 · 2^30 = 2^64
+example : parseMaxBlobSize b!"" = none ∧ parseMaxBlobSize b!"K" = none ∧ parseMaxBlobSize b!"5T" = none := by decide +kernel
 
 end Frrs.C06
